@@ -602,7 +602,11 @@ def check_svd(mp, rec, r, op, kind, p, Aq):
     with Prec(mp, p):
         M = to_mp(mp, Aq)
         if op == 'svd_rc':
-            f = mp.svd_c if (cplx or r.random() < 0.3) else mp.svd_r
+            # svd_r is documented for real matrices only: it may be used only when no entry is complex-*typed*
+            # (a GQ with zero imaginary part is injected as an mpc and belongs to svd_c)
+            cplx_typed = any(isinstance(v, L.GQ) for row in Aq for v in row)
+            u = None if cplx else r.random()          # drawn under the same condition as before: seeded case streams unchanged
+            f = mp.svd_c if (cplx or cplx_typed or u < 0.3) else mp.svd_r
         else:
             f = mp.svd
         if values:
